@@ -154,6 +154,9 @@ def run_case(case, tier="quick"):
         if not (r2.ctor_error or r2.solve_error) and r2.solved:
             return inconclusive("failure only with the harness-reduced scanning window", labels)
         r = r2
+    witness = bool(meta.get("planted")) and _planted_is_witness(G, meta["planted"], f_req, constraints, coverage, node_mode, wt)
+    if not witness and (r.ctor_error or r.solve_error or not r.solved):
+        return invalid_config("no valid planted witness in the case: decomposability unknown")
     if r.ctor_error:
         return violation("ctor_crash", f"well-formed input rejected: {r.ctor_error}", labels, site=r.ctor_error.site, facts=facts)
     if r.solve_error:
@@ -193,7 +196,7 @@ def run_case(case, tier="quick"):
     # (i) planted witness bound
     k0 = meta.get("k0")
     planted = meta.get("planted")
-    if planted and _planted_is_witness(G, planted, f_req, constraints, coverage, node_mode, wt):
+    if witness:
         distinct_planted = len({tuple(p) for p, _w in planted})
         if n > distinct_planted:
             return violation(
